@@ -488,7 +488,7 @@ def install():
         'numpy.multiply.reduce': _reduce_ufunc(lambda I, fr, a, b, n: I.binop('*', a, b)),
         'numpy.amax': N['numpy.max'], 'numpy.amin': N['numpy.min'],
         'numpy.cumsum': _cumsum, 'numpy.diff': _diff, 'numpy.stack': _stack, 'numpy.vstack': _stack,
-        'numpy.hstack': N['numpy.concatenate'],
+        'numpy.hstack': X._np_hstack, 'numpy.column_stack': X._np_hstack,
         'numpy.logical_not': _logical_not, 'numpy.invert': _logical_not,
         'numpy.logical_and': _logical2('and'), 'numpy.logical_or': _logical2('or'),
         'numpy.less': _compare_ufunc('<'), 'numpy.less_equal': _compare_ufunc('<='),
